@@ -62,17 +62,24 @@ MaxBits(d) == 8 * Size(d) - (IF IsSigned(d) THEN 1 ELSE 0)
 \* ---------------------------------------------------------------- units
 \* model registry: index -> binary exponent of the scale (1 m, 2 la, 3 lc)
 \* 11 = lnd: same scale as la, but registered with an np.float64 base value (a strongly typed NumPy scalar)
-UnitExp(u) == CASE u = 1 -> 0 [] u = 2 -> 10 [] u = 3 -> -3 [] u = 11 -> 10
+\* 21 K, 22 tc, 23 tf: temperatures with an OFFSET, dyadic: K = (v - off) * 2^exp with tc = (exp 0, off -33/2),
+\* tf = (exp -1, off -17/4) - the model's degC / degF (round 7)
+UnitExp(u) == CASE u = 1 -> 0 [] u = 2 -> 10 [] u = 3 -> -3 [] u = 11 -> 10 [] u = 21 -> 0 [] u = 22 -> 0 [] u = 23 -> -1
+UnitOff(u) == CASE u = 22 -> <<-33, 2>> [] u = 23 -> <<-17, 4>> [] OTHER -> RZero
 \* units of the default registry (non-dyadic factors, or table values held as np.float64 / int): decimal
 \* exponent used only to order them (is the factor from -> to above or below one?)
 \* 4 km, 5 mile, 6 cm, 7 mm, 8 Mm, 9 ym, 10 Ym, 12 l_pl (np.float64), 13 Wh (int), 14 J, 15 dB (np.float64), 16 B (np.float64)
-RealRank(u) == CASE u = 1 -> 0 [] u = 4 -> 30 [] u = 5 -> 32 [] u = 6 -> -20 [] u = 7 -> -30 [] u = 8 -> 60 [] u = 9 -> -240
+\* 17 N, 18 kg*m/s**2 (the same scale under another name), 19 degC, 20 degF, 21 K (offsets), 24 dyn, 25 g*cm/s**2
+RealRank(u) == CASE u \in {17, 18, 21, 24, 25} -> 0 [] u = 19 -> 1 [] u = 20 -> -1 [] u = 1 -> 0 [] u = 4 -> 30 [] u = 5 -> 32 [] u = 6 -> -20 [] u = 7 -> -30 [] u = 8 -> 60 [] u = 9 -> -240
                  [] u = 10 -> 240 [] u = 12 -> -350 [] u = 13 -> 36 [] u = 14 -> 0 [] u = 15 -> -10 [] u = 16 -> 0
 RealDir(from, to) == IF RealRank(from) > RealRank(to) THEN 1 ELSE -1
 Factor(from, to) == UnitExp(from) - UnitExp(to)
 RECURSIVE Pow2Nat(_)
 Pow2Nat(n) == IF n = 0 THEN 1 ELSE 2 * Pow2Nat(n - 1)
 Pow2(k) == IF k >= 0 THEN <<Pow2Nat(k), 1>> ELSE <<1, Pow2Nat(-k)>>
+\* what a conversion adds after scaling: v_to = v_from * 2^Factor + Shift (unit_object._get_conversion_factor
+\* returns (ratio, ratio * old_offset - new_offset) and the routes subtract that)
+Shift(from, to) == RSub(UnitOff(to), RMul(Pow2(Factor(from, to)), UnitOff(from)))
 
 \* ---------------------------------------------------------------- value classes
 \* integer classes: s3 = 3, n5 = -5, e11 = 2^11+1, e24 = 2^24+1, g24 = 2^24+3, e53 = 2^53+1,
@@ -126,13 +133,14 @@ AbsGeLarge(vc, d, s) ==
 AnyLarge(vcs, d, ds) == \E i \in DOMAIN vcs : IF "large" \in Fixes THEN AbsGeLarge(vcs[i], d, Size(d)) ELSE AbsGtLarge(vcs[i], d, ds)
 
 \* ---------------------------------------------------------------- conversion routes (transitions)
-CopyRoutes == {"to", "in_units", "to_equivalent", "to_value", "in_base", "in_mks"}
-InPlaceRoutes == {"convert_to_units", "convert_to_equivalent", "convert_to_base", "convert_to_mks"}
+CopyRoutes == {"to", "in_units", "to_equivalent", "to_value", "in_base", "in_mks", "in_cgs"}
+InPlaceRoutes == {"convert_to_units", "convert_to_equivalent", "convert_to_base", "convert_to_mks", "convert_to_cgs"}
 \* copy route -> its in-place twin
 Twin(r) == CASE r \in {"to", "in_units", "to_value"} -> "convert_to_units"
              [] r = "to_equivalent" -> "convert_to_equivalent"
              [] r = "in_base" -> "convert_to_base"
              [] r = "in_mks" -> "convert_to_mks"
+             [] r = "in_cgs" -> "convert_to_cgs"
 Ret(kind, size, py, warn, vok) == [raise |-> FALSE, kind |-> kind, size |-> size, py |-> py, warn |-> warn, vok |-> vok]
 Raise == [raise |-> TRUE, kind |-> "", size |-> 0, py |-> FALSE, warn |-> FALSE, vok |-> TRUE]
 
@@ -163,7 +171,7 @@ InPlaceOut(d, vcs, k) ==
 ConvOut(route, d, vcs, k, shape) ==
   CASE route \in {"to", "in_units", "to_equivalent"} -> CopyOut(d, vcs)
     [] route = "to_value" -> ToValueOut(d, vcs, shape)
-    [] route \in {"in_base", "in_mks"} -> InBaseOut(d, vcs)
+    [] route \in {"in_base", "in_mks", "in_cgs"} -> InBaseOut(d, vcs)
     [] route \in InPlaceRoutes -> InPlaceOut(d, vcs, k)
 
 \* ---------------------------------------------------------------- binary ufuncs (transitions)
@@ -243,6 +251,13 @@ ConvFails(route, d, vcs, r) ==
        [] cl = "C17a_value" -> ~C17a_Val(r)
        [] cl = "C17b" -> ~C17b(d, r)
        [] cl = "C17d" -> ~C17d(d, vcs, r)}
+
+\* Identity "conversions" (source unit = target unit, e.g. m -> in_base() -> m): the statement speaks of
+\* converting "to another unit", so a route that hands integer data back unchanged is not questioned -
+\* only refusals, the values and (C17c, in the callers) the agreement of the copying and in-place routes.
+\* A conversion between two NAMES of the same scale (N -> kg*m/s**2, la -> lnd) is a conversion: full P.
+ConvFailsI(route, d, vcs, r, ident) ==
+  IF ident THEN ConvFails(route, d, vcs, r) \cap {"C17_refuse", "C17a_value"} ELSE ConvFails(route, d, vcs, r)
 
 \* mixed-unit binary ufuncs
 C17_RefuseUfunc(d0, d1, out, r) ==
@@ -355,6 +370,8 @@ IsRepR(x, cs) ==
      /\ (cs <= 4 => OddPart(IAbs(x[1])) < Pow2Nat(Prec(cs)))
      /\ (cs = 2 => (IAbs(x[1]) <= 65504 * x[2] /\ (x[2] <= 16384 \/ x[2] \div 16384 <= IAbs(x[1]))))
 ConvExact(vc, k) == LET v == SmallVal(vc) IN <<RMul(v[1], Pow2(k)), RMul(v[2], Pow2(k))>>
+\* affine conversion (units with an offset): the shift moves the real part only
+ConvExactS(vc, k, sh) == LET x == ConvExact(vc, k) IN <<RAdd(x[1], sh), x[2]>>
 UfuncExact(op, vc0, vc1, k) ==
   LET a == SmallVal(vc0)
       b == ConvExact(vc1, k) IN
